@@ -7,11 +7,14 @@
 (* another input class, or another wrong result on the same input, matches *)
 (* no disjunct and is reported as a VIOLATION.                             *)
 (***************************************************************************)
-EXTENDS GlmInteger
+EXTENDS GlmRound
 
 \* C05: usubBorrow returns |x - y| style results: y - x when y >= x, 2^32 + (y - x) otherwise
 KD_UsubBorrowSwapped(x, y, r, c) ==
     LET e == UsubBorrow(y, x) IN
     /\ r = WToLimbs(e.r, 32)
     /\ c = WToLimbs(NFromNat(IF NCmp(x, y) >= 0 THEN 0 ELSE 1), 32)
+
+\* C18: gtx pow(int x, uint 0) returns -1 for a negative base (x^0 = 1)
+KD_IpowNegativeBaseZeroExponent(x, y, r) == y = 0 /\ ZSign(x) < 0 /\ ZEq(r, ZFromInt(-1))
 =============================================================================
